@@ -14,7 +14,9 @@ The socket / file descriptor is the environment.  It is a *script*: the list of 
 the next `send` / `recv` calls will get (`SendRes`, `RecvRes`); an exhausted script answers
 "would block".  What the environment saw is recorded in the state (`sent`, `recvd`) exactly
 as the socket double of the harness records it; `queued`, `taken` are history variables
-(everything ever passed to `tx`, everything removed by `clearRxbs`).
+(everything ever passed to `tx`, everything removed by `clearRxbs` / `catRxbs`).
+`.rxbs` and `.txes` are *the* buffer objects (possibly supplied by the caller, `Client(rxbs=…, txes=…)`):
+every operation works on them in place, none rebinds the attribute.
 
 Errno classification is abstracted here (it is property C25, `Model/Errno.lean`): a send
 answer is one of  accept k bytes | would block | connection lost | other error.
@@ -225,6 +227,7 @@ inductive Op
   | serviceReceives
   | serviceReceiveOnce
   | clearRxbs                      -- `del self.rxbs[:]`
+  | catRxbs                        -- `rx = self.rxbs[:]; self.clearRxbs(); return rx` (the same buffer, emptied in place)
   | setLive (b : Bool)             -- `.connected = b` / `.server.opened = b`
   deriving Repr
 
@@ -237,6 +240,7 @@ def step (s : State) : Op → Res
   | .serviceReceives => serviceReceives s
   | .serviceReceiveOnce => serviceReceiveOnce s
   | .clearRxbs => .ok { s with rxbs := [], taken := s.taken ++ s.rxbs }
+  | .catRxbs => .ok { s with rxbs := [], taken := s.taken ++ s.rxbs }
   | .setLive b => .ok { s with live := b }
 
 /-- a history: the caller goes on with the same object after an exception -/
